@@ -13,6 +13,8 @@ Reset ==
   /\ keep' = [a \in Alloc |-> FALSE]
   /\ vdrops' = [a \in Alloc |-> 0]
   /\ calls' = [a \in Alloc |-> [clone |-> 0, drop |-> 0]]
+  /\ foreign' = [a \in Alloc |-> FALSE]
+  /\ hrel' = <<>>
 
 (* free-running threads: an event carries what its own thread observed of its own slots *)
 LocalOk(e) == \A i \in DOMAIN e.lv : /\ slot'[e.lv[i][1]].kind = e.lv[i][2]
